@@ -15,6 +15,7 @@ import (
 	"google.golang.org/protobuf/proto"
 	"google.golang.org/protobuf/reflect/protoreflect"
 	"google.golang.org/protobuf/types/dynamicpb"
+	"google.golang.org/protobuf/types/known/anypb"
 	"google.golang.org/protobuf/zverifsim/gen"
 	"google.golang.org/protobuf/zverifsim/scn"
 	"google.golang.org/protobuf/zverifsim/sim"
@@ -70,7 +71,7 @@ func (c14) Gen(r *sim.Rng, tier string) *scn.Scn {
 	s.P["bufsize"] = int64([]int{16, 32, 64, 256, 4096}[r.Intn(5)])
 	var ops []scn.Op
 	n := r.Range(4, 16)
-	kinds := []string{"unmarshal", "unmarshal", "unmarshal", "unmarshal-from", "clone", "merge", "scribble", "scribble", "mutate", "mutate", "observe", "observe", "unmarshal-merge", "reuse", "unmarshal-json", "unmarshal-text"}
+	kinds := []string{"unmarshal", "unmarshal", "unmarshal", "unmarshal-from", "clone", "merge", "scribble", "scribble", "mutate", "mutate", "observe", "observe", "unmarshal-merge", "reuse", "unmarshal-json", "unmarshal-text", "unmarshal-any"}
 	for i := 0; i < n; i++ {
 		op := scn.Op{Op: kinds[r.Intn(len(kinds))], Obj: r.Intn(nobj), N: int64(r.Intn(nslots)), M: int64(r.Intn(nslots)), S: fmt.Sprint(r.U64() >> 1)}
 		op.Flag = r.Chance(1, 3) // unmarshal: NoLazyDecoding / DiscardUnknown variations encoded in Path
@@ -393,6 +394,24 @@ func (c14) Run(s *scn.Scn, x *sim.Exec) {
 			if !uo.NoLazyDecoding {
 				lazyPending++
 			}
+		case "unmarshal-any":
+			// through google.protobuf.Any: the payload bytes the Any holds are the caller's too
+			wire := s.Objects[obj].Wire
+			buf := append(make([]byte, 0, len(wire)+int(seed%7)), wire...)
+			owned = append(owned, ownedBuf{buf, fmt.Sprintf("the Any payload of op %d", opi)})
+			if !slots[k].used {
+				slots[k].m = c14New(typ)
+			}
+			a := &anypb.Any{TypeUrl: "type.googleapis.com/" + string(slots[k].m.ProtoReflect().Descriptor().FullName()), Value: buf}
+			if err := anypb.UnmarshalTo(a, slots[k].m, proto.UnmarshalOptions{AllowPartial: true}); err != nil {
+				slots[k] = c14Slot{}
+				return sim.OpResult{}
+			}
+			p := c14New(typ)
+			(proto.UnmarshalOptions{AllowPartial: true, NoLazyDecoding: true}).Unmarshal(append([]byte(nil), wire...), p)
+			slots[k].expected, _ = detBytes(p)
+			slots[k].used = true
+			lazyPending++
 		case "unmarshal-json", "unmarshal-text":
 			// the text codecs read from a caller's buffer too: nothing of the message may point into it
 			src := c14New(typ)
